@@ -100,8 +100,13 @@ def registry_cases(tier, seed):
     for _ in range(20 if tier == "quick" else 200):
         hist = []
         for _h in range(rng.randint(0, 6)):
-            if rng.random() < 0.5:
+            r = rng.random()
+            if r < 0.3:
                 hist.append(["get", rng.choice("ijab") + str(rng.randint(3, 12)), rng.choice(["", "a", "b"])])
+            elif r < 0.55:
+                # explicit request for a name that is waiting in the pool of generated names
+                hist.append(["get_pool", rng.choice(["occ", "virt", "general"]), rng.choice(["", "a"]),
+                             rng.randint(0, 7)])
             else:
                 hist.append(["generic", rng.choice(["occ", "virt", "general"]), rng.randint(1, 9), rng.choice(["", "a"])])
         yield {"history": hist}
@@ -111,9 +116,26 @@ def registry_check(case):
     reg = Indices()
     issued = set()
     for h in case["history"]:
+        if h[0] == "get_pool":
+            pool = reg._generic_indices[h[1]][h[2]]
+            if not pool:
+                continue
+            name = pool[h[3] % len(pool)]
+            a = get_symbols(name, h[2] or None)[0]
+            if (a.name, a.space, a.spin) != (name, h[1], h[2]):
+                return False, f"index {a} requested by the name {name} has the wrong name / space / spin"
+            if get_symbols(name, h[2] or None)[0] is not a:
+                return False, f"two requests for {name} returned different objects"
+            continue
         if h[0] == "get":
-            a = get_symbols(h[1], h[2] or None)[0]
-            b = get_symbols(h[1], h[2] or None)[0]
+            first = get_symbols(h[1], h[2] or None)
+            a = first[0]
+            first.clear()       # the caller owns the returned list
+            again = get_symbols(h[1], h[2] or None)
+            if len(again) != 1:
+                return False, (f"get_symbols({h[1]!r}) returns {again} after the list returned by an earlier "
+                               "request was emptied by its owner")
+            b = again[0]
             if a is not b:
                 return False, f"two requests for {h[1]}_{h[2]} returned different objects"
             if (a.name, a.space, a.spin) != (h[1], a.space, h[2]):
